@@ -108,6 +108,22 @@ func main() {
 					return true
 				})
 			}
+			// fio: (*MMap).Write copies into the mapping and is invisible at the os level: rename it and
+			// let the virtual file fio/verif_wrap.go supply a recording wrapper of the same name.
+			if p == "fio" {
+				for _, d := range f.Decls {
+					fd, ok := d.(*ast.FuncDecl)
+					if !ok || fd.Recv == nil || len(fd.Recv.List) != 1 || fd.Name.Name != "Write" {
+						continue
+					}
+					if st, ok := fd.Recv.List[0].Type.(*ast.StarExpr); ok {
+						if id, ok := st.X.(*ast.Ident); ok && id.Name == "MMap" {
+							fd.Name.Name = "verifOrigWrite"
+							changed = true
+						}
+					}
+				}
+			}
 			if !changed {
 				continue
 			}
